@@ -213,11 +213,17 @@ def o_normalise(forest, pres=False, cont=None, decl_as_pi=False):
                     buf.append(s)
                 continue
             flush()
+            tail = None
             if c == "XMLProcessingInstruction" or (c == "Declaration" and decl_as_pi):
                 c, s = "ProcessingInstruction", s + "?"
+                if st[1] == "Declaration" and ">" in s:
+                    # known-finding mode only: '<?' + s + '?>' read as a processing instruction ends at the first '>'
+                    s, tail = s[:s.index(">")], s[s.index(">") + 1:] + ">"
             out.append(("S", c, o_ws(s, pres)))
             if c == "Doctype":
                 buf.append("\n")
+            if tail:
+                buf.append(tail)
         else:
             flush()
             nm = o_full(st)
@@ -1094,7 +1100,33 @@ def check_tree(ctx, batch, recipe, stream, parsed, sub_elements=2, r=None):
         for i in sorted(r.sample(range(1, len(els)), min(sub_elements, len(els) - 1))):
             roundtrip_checks(ctx, batch, recipe, root, i, els[i], stream, parsed)
     ctx.case(nontrivial_key(st_root), sample={"stream": stream, "rendered": ascii(root.decode())[:200]})
+    detached_checks(ctx, recipe, els, stream, r)
     return reason
+
+
+def detached_checks(ctx, recipe, els, stream, r):
+    """last step of a case (it edits the tree): an element taken out of its tree renders as it did inside it — the start
+    element's own parent is never consulted (script/style elements preferred: their text consults `parent.name`)"""
+    if len(els) < 2:
+        return
+    raw = [i for i in range(1, len(els)) if els[i].name in P_RAW]
+    picks = raw[:1]
+    if r is not None:
+        picks += r.sample(range(1, len(els)), 1)
+    for i in dict.fromkeys(picks):
+        el = els[i]
+        if el.parent is None:
+            continue
+        fmts = XML_FORMATTERS if el._is_xml else HTML_FORMATTERS
+        before = [(el.decode(formatter=f), el.decode_contents(formatter=f)) for f in fmts]
+        el.extract()
+        after = [(el.decode(formatter=f), el.decode_contents(formatter=f)) for f in fmts]
+        ctx.count("detached:compared")
+        if before != after:
+            k = next(j for j in range(len(fmts)) if before[j] != after[j])
+            ctx.violation("an element renders differently once it is extracted from its tree",
+                          case={"recipe": recipe, "element": i, "formatter": fmts[k], "op": "detached"},
+                          expected=before[k][0], observed=after[k][0], stream=stream)
 
 
 # --------------------------------------------------------------------------------------------------------------
@@ -1296,6 +1328,11 @@ def replay(path):
         print("third rendering:  ", ascii(text3))
         if got != want or text2 != text3:
             rc = 1
+    elif c.get("op") == "detached":
+        el.extract()
+        after = el.decode(formatter=f)
+        print("after extract():", ascii(after))
+        rc = 0 if after == text else 1
     elif c.get("op") == "render":
         rep = Driver().ask([c["request"]])[0]
         parts = rep.split(" | ")
